@@ -9,3 +9,20 @@ claim('C01',
       'Trusted: Lean kernel, correspondence harness, shims. Oracles need no assumption for soundness. Check-level bookkeeping (AttachFactors, CheckGCD record) is covered under C16/C03.',
       'Lean 4 proof of soundness over an executable model + differential correspondence with the Python implementation',
       'DESIGN.md section 5 C01')
+
+claim('C03',
+      'Lean theorems (Props/C03.lean): for EVERY batch of positive values (any length, any multiplicities), every other_values_prod and '
+      'every enumeration order of Python\'s set(values), rsa_util.BatchGCD returns at position i exactly '
+      'gcd(values[i], prod(set(values) - {values[i]}) * other\') with other\' = 1 for None/0 (batchGCD_spec, order_independent); proved through '
+      'FastProduct = product, the product-tree invariant (T = sum_i prod_{j!=i} u_j, top node prod u, each level the pairwise product of the one below), '
+      'T mod v, and the remainder-tree invariant. Corollaries: a key is flagged by CheckGCD iff its modulus shares a divisor > 1 with another DISTINCT modulus '
+      '(flagged_iff_shares, checkGCD_any_weak); identical moduli never accuse each other; the answer depends on the value set only (permutation-equivariance); '
+      'adding a coprime modulus changes nothing; the recorded factors are [g, n/g] with g | n, and g = n iff n divides the product of the others; '
+      'CheckGCDN1 flags iff gcd(n-1, prod of the other distinct n\'-1) >= bound and attaches [gcd]. Empty batch: [] / not weak for the code after '
+      'fixes/D1-batchgcd-empty.diff; on the pinned tree BatchGCD([]) raises IndexError (defect D1, theorem empty_batch_pinned_raises, reported as KNOWN-FINDING while listed in known_findings.json). '
+      'Model tied to /repo by differential correspondence: every batch size 0..130 (thorough 0..400 + sampled to 5000) x 10 batch families x 5 kinds of other, '
+      'the product tree and FastProduct alone, the set() order actually used by CPython, and CheckGCD/CheckGCDN1 through real protobuf artifacts with bounds around the gcd values.',
+      'Trusted: Lean kernel, correspondence harness, protobuf shim. No oracle. Hypothesis of the theorems: values > 0 (a zero among >= 2 distinct values raises ZeroDivisionError in code and model, theorem zero_value_raises); '
+      'CheckGCDN1 needs moduli >= 2 for the theorem, modulus 0 (value -1) is outside the model. AttachFactors set union with pre-existing factors and SetTestResult bookkeeping are C16.',
+      'Lean 4 proof model = specification over an executable model + differential correspondence with the Python implementation',
+      'DESIGN.md section 5 C03, section 6 D1')
